@@ -57,6 +57,10 @@ type replayDoc struct {
 	InCases []inCase `json:"in_cases,omitempty"`
 
 	DSL string `json:"dsl,omitempty"`
+
+	// multi-route inbound (multi_test.go) and multi-target outbound (multiout_test.go)
+	Multi    *mReplay `json:"multi,omitempty"`
+	MultiOut *oReplay `json:"multi_out,omitempty"`
 }
 
 const maxListedSteps = 5000
@@ -315,6 +319,21 @@ func runReplay(t *testing.T, r *runner.Run, path string) {
 	case "e2e":
 		fl, err = runE2ESteps(t, d.Windows, d.Variants, d.Clocks, d.Var, d.Route)
 		r.Add("evaluations", int64(len(d.Clocks)))
+	case "multi-in":
+		if d.Multi == nil {
+			r.Infra("replay: no multi-route scenario in the artefact")
+			return
+		}
+		fl, err = runMultiSteps(t, d.Multi.Scenario, d.Multi.Cases)
+		r.Add("evaluations", int64(len(d.Multi.Cases)))
+		d.Multi = &mReplay{Scenario: d.Multi.Scenario, Cases: d.Multi.Cases[len(d.Multi.Cases)-1:]}
+	case "multi-out", "multi-e2e":
+		if d.MultiOut == nil {
+			r.Infra("replay: no multi-target configuration in the artefact")
+			return
+		}
+		fl, err = runMultiOutReplay(t, d.Part, *d.MultiOut)
+		r.Add("evaluations", int64(len(d.MultiOut.Clocks)))
 	default:
 		r.Infra("replay: part %q has no case replay; run the check", d.Part)
 		return
